@@ -140,6 +140,14 @@ Theorem C09_port_holds_faulted : forall st e sendable hs d,
 Proof. exact port_holds_f_model. Qed.
 Print Assumptions C09_port_holds_faulted.
 
+(* the tie between the theorems and the evaluated cases: for every case whose entry answer carries
+   covered = 1 (port_validb) the checker accepts the model; the others (a reply due to a requester with
+   source port 0) are the subject of C09_port_holds_unsendable *)
+Theorem C09_port_covered_cases : forall f sendable hs d,
+  port_validb f sendable hs d = true -> port_holds_f f sendable hs d (serve_one_f f sendable hs d) = [].
+Proof. exact port_covered_cases. Qed.
+Print Assumptions C09_port_covered_cases.
+
 (* non-vacuity: a mixed-case request with a duplicated option name is decoded and handed to the
    second handler; a request without the final NUL is refused *)
 Example C09_port_nonvacuous :
